@@ -1,4 +1,5 @@
 """C02 — writing one value never changes another: store-extent discipline (DESIGN §3 C02)."""
+import re
 from core import Rule
 import facts as FA
 from facts import short, strip_generics, show_chain, walk_chain, chain_calls
@@ -441,6 +442,49 @@ def r02f(ctx, run):
         raise LookupError("write_all call sites: %d" % n)
 
 
+def slot_cached(ga):
+    """does a container method's generic-argument list say the container holds stack slots?"""
+    return bool(re.search(r"\bStackSlot\b", ga or ""))
+
+
+def r02g(ctx, run):
+    """stack slots are created per use site and never cached: a container (map, vector, set) that holds StackSlots hands the same storage to
+    two values (e.g. one spill slot per return TYPE: the second call's result overwrites the first one's while it is still in use)"""
+    import re as _re
+    assert slot_cached("[internment::intern::Intern<hir::common::ty::Ty>, cranelift_codegen::ir::StackSlot, rustc_hash::FxBuildHasher]") and not slot_cached("[u32, Value]")
+    F = ctx.facts
+    n_create = 0
+    hits = {}
+    for fn in F.fns:
+        if fn.crate != "codegen":
+            continue
+        for c in fn.calls():
+            nm = short(c.callee)
+            if nm == "create_sized_stack_slot":
+                n_create += 1
+            if _re.search(r"(Hash(Map|Set)|BTree(Map|Set)|indexmap::|alloc::vec::Vec|VecDeque|smallvec|ArrayVec|Entry)", c.callee) and slot_cached(c.ga):
+                owner = strip_generics(fn.parent or fn.path)
+                hits.setdefault(owner, []).append(c)
+    for owner, cs in sorted(hits.items()):
+        c = cs[0]
+        run.finding(owner, "slot-container", c.file, c.ln,
+                    "%s keeps stack slots in a container (%s on %s): slots handed out from a cache are shared between values - the later value's store overwrites the earlier "
+                    "one while it is still live (e.g. both results of f(g(1), g(2)) spilled to one slot)" % (short(owner), short(c.callee), (c.ga or "")[:90]))
+    if n_create < 8:
+        raise LookupError("create_sized_stack_slot call sites: %d" % n_create)
+    if not hits:
+        run.ok("crates/codegen/src/compiler/functions.rs:1", "%d create_sized_stack_slot sites; no container in the code generator holds stack slots" % n_create)
+    # the spill slot of a register-returned aggregate is created in the call's own handle_ret (def-use)
+    hr = F.fn("codegen::convert::abi::FnAbi::handle_ret")
+    stores = [c for c in hr.calls() if short(c.callee) in ("stack_store", "stack_addr")]
+    for i, c in enumerate(stores):
+        ch = hr.chain_operand(c.args[2] if short(c.callee) == "stack_store" else c.args[2], depth=10)
+        direct = any(n.get("kind") == "call" and short(n["callee"]) == "create_sized_stack_slot" for n in walk_chain(ch)) and not any(
+            n.get("kind") == "call" and short(n["callee"]) in ("get", "entry", "or_insert_with", "or_insert", "index", "get_mut", "insert") for n in walk_chain(ch))
+        run.check(direct, c.site(), "handle_ret: %s uses a slot created for this call" % short(c.callee), "codegen::convert::abi::FnAbi::handle_ret", "ret-slot#%d" % i, c.file, c.ln,
+                  "the slot a register-returned aggregate is spilled into must be created for this very call (create_sized_stack_slot in handle_ret); found %s" % show_chain(ch, 4)[:100])
+
+
 def rules(ctx):
     return [
         Rule("R02.a", "tag stores/loads (offset derived from discriminant_offset) move exactly one byte", 9, r02a),
@@ -448,5 +492,6 @@ def rules(ctx):
         Rule("R02.c", "aggregate copies are bounded by the destination type's size(), not stride()", 6, r02c),
         Rule("R02.d", "raw Cranelift stores only in MemoryLoc, the ABI module and reviewed scalar-slot sites", 25, r02d),
         Rule("R02.e", "every local definition and every by-value aggregate parameter is bound to a stack slot created for it (no shared storage)", 2, r02e),
+        Rule("R02.g", "stack slots are created per use site, never cached in a container; a call's spill slot is created for that call", 2, r02g),
         Rule("R02.f", "every MemoryLoc::write_all receives a value already converted to the type it is told to store", 5, r02f),
     ]
